@@ -46,11 +46,17 @@ class P(ServeProp):
             body = rnd.choice([b"", b"new content", bytes(rnd.randrange(256) for _ in range(50)),
                                (bd + '\r\nContent-Disposition: form-data; name="file"; filename="a.txt"\r\nContent-Type: text/plain\r\n\r\nOVERWRITE\r\n' + bd).encode(),
                                b"name=a.txt&content=OVERWRITE"])
+            opts = ""
+            if rnd.random() < 0.25:
+                # an upload that does not fit the request buffer: the rest of the body is still on the connection when the request is handled
+                sz = rnd.choice([64, 256, 1024, 4096, 10000])
+                body = body + bytes(rnd.randrange(256) for _ in range(rnd.choice([sz, 2 * sz, 3 * sz + 17])))
+                opts = "size=%d" % sz
             hs = [rnd.choice(["Content-Type: multipart/form-data; boundary=" + bd, "Content-Type: application/x-www-form-urlencoded", "Content-Type: application/octet-stream"]),
                   "Content-Length: %d" % len(body)]
             if rnd.random() < 0.3: hs.append("Content-Range: bytes 0-3/10")
             if rnd.random() < 0.2: hs.append("Range: " + rnd.choice(["bytes=0-1", "bytes=0-3, 5000-6000", "bytes=0-0,2-2", "bytes=0-0,a-b", "bytes=-1,99999-"]))
-            out.append(self._with_manifest(gs.serve_case(rnd, kind="serve" if rnd.random() < 0.8 else "serveL", tree=t, target=tg, method=meth, headers=hs, body=body, meta="write=1")))
+            out.append(self._with_manifest(gs.serve_case(rnd, kind="serve" if rnd.random() < 0.8 else "serveL", tree=t, target=tg, method=meth, headers=hs, body=body, opts=opts, meta="write=1")))
         return out
 
     @staticmethod
